@@ -25,7 +25,7 @@ OBJS = ['o1', 'o2', 'o3']
 
 
 def cases(max_timed, horizons):
-    def build(tt, cyc, pre, timed, T, split, pol, seed, late, between, init, mach):
+    def build(tt, cyc, pre, timed, T, split, pol, seed, late, between, init, mach, zero_first):
         tt = [list(x) for x in tt]
         if sum(d for d, _ in tt) == 0:
             tt[0][0] = 1
@@ -37,6 +37,8 @@ def cases(max_timed, horizons):
             used[(t, p)] = 1
             out.append([t, p, k, o, ov])
         Ts = [T] if not split else [T / 4, 3 * T / 4]
+        if zero_first and not between:
+            Ts = [0] + Ts      # a zero-length first run: initialisation and start-up happen in it
         if between and split:
             late = T / 4
         else:
@@ -52,15 +54,16 @@ def cases(max_timed, horizons):
                                st.sampled_from([2, 3, 5, 8, 10, 11.5, 12]),
                                st.sampled_from(['reg', 'reg', 'unreg']), st.sampled_from(OBJS), st.booleans()),
                      max_size=max_timed)
-    return st.builds(build, st.lists(entry, min_size=1, max_size=6), st.sampled_from([True, False, None]), pre, timed,
+    return st.builds(build, st.lists(entry, min_size=1, max_size=6), st.sampled_from([True, False, None, 0, 1]), pre, timed,
                      st.sampled_from(horizons), st.booleans(), st.sampled_from(['random', 'fifo', 'lifo', 'const']),
                      st.integers(0, 10 ** 6), st.sampled_from([None, None, None, 0.5, 1.75, 2.5]),
                      st.sampled_from([False, False, False, True]), st.sampled_from([False, False, False, False, True]),
-                     st.sampled_from([None, None, [0.75, 2.25, 3.5], [1, 1.5, 2], [0.25, 4.75, 0.5]]))
+                     st.sampled_from([None, None, [0.75, 2.25, 3.5], [1, 1.5, 2], [0.25, 4.75, 0.5]]),
+                     st.sampled_from([False, False, False, True]))
 
 
 def valid(case):
-    return (len(case.get('tb', [])) == 2 and bool(case['T']) and all(t > 0 for t in case['T']) and bool(case['timetable'])
+    return (len(case.get('tb', [])) == 2 and bool(case['T']) and all(t >= 0 for t in case['T']) and sum(case['T']) > 0 and bool(case['timetable'])
             and (sum(d for d, _ in case['timetable']) > 0))
 
 
